@@ -8,6 +8,7 @@ import (
 	"encoding/json"
 	"fmt"
 	"runtime"
+	"strings"
 	"sync"
 
 	"github.com/wolimst/lib-secs2-hsms-go/pkg/ast"
@@ -244,6 +245,100 @@ func driverBig(c *Ctx) {
 		c.emit(j.idx, res[k])
 		c.count("big." + j.f)
 	}
+	// several items of different length-byte classes behind each other in one message, in every order:
+	// what the decoder reads for one length field must not depend on the one before
+	for _, kids := range seqCases() {
+		idx++
+		if c.want(idx) {
+			c.emit(idx, seqEvent(kids))
+			c.count("big.seq")
+		}
+	}
+}
+
+type seqKid struct {
+	f string
+	n int
+}
+
+func seqCases() [][]seqKid {
+	small, mid, large := []int{3, 255}, []int{300, 65535}, []int{65536, 70000}
+	fs := []string{"B", "A", "U4", "F8", "BOOLEAN", "I2", "U1", "I8"}
+	var out [][]seqKid
+	k := 0
+	next := func(cl []int) seqKid {
+		f := fs[k%len(fs)]
+		n := cl[k%2] / widthOf(f)
+		k++
+		if n == 0 {
+			n = 1
+		}
+		return seqKid{f, n}
+	}
+	// (n is chosen so that the byte length, not the element count, falls into the class)
+	perms := [][3]int{{0, 1, 2}, {0, 2, 1}, {1, 0, 2}, {1, 2, 0}, {2, 0, 1}, {2, 1, 0}}
+	cls := [][]int{small, mid, large}
+	for round := 0; round < 2; round++ {
+		for _, p := range perms {
+			out = append(out, []seqKid{next(cls[p[0]]), next(cls[p[1]]), next(cls[p[2]])})
+		}
+	}
+	for _, pair := range [][2]int{{2, 1}, {1, 2}, {2, 0}, {1, 0}, {2, 2}, {1, 1}} {
+		out = append(out, []seqKid{next(cls[pair[0]]), next(cls[pair[1]])})
+	}
+	return out
+}
+
+func seqEvent(kids []seqKid) J {
+	items := make([]interface{}, len(kids))
+	kj := make([]interface{}, len(kids))
+	for i, kd := range kids {
+		kj[i] = J{"f": kd.f, "n": kd.n}
+		el := bigElems(kd.f)
+		if kd.f == "A" {
+			items[i] = ast.NewASCIINode(strings.Repeat(string([]byte{el[1].(byte)}), kd.n))
+			continue
+		}
+		vals := make([]interface{}, kd.n)
+		for j := range vals {
+			vals[j] = el[j%3]
+		}
+		switch kd.f {
+		case "B":
+			items[i] = ast.NewBinaryNode(vals...)
+		case "BOOLEAN":
+			items[i] = ast.NewBooleanNode(vals...)
+		default:
+			switch kd.f[0] {
+			case 'I':
+				items[i] = ast.NewIntNode(fmtSize(kd.f), vals...)
+			case 'U':
+				items[i] = ast.NewUintNode(fmtSize(kd.f), vals...)
+			default:
+				items[i] = ast.NewFloatNode(fmtSize(kd.f), vals...)
+			}
+		}
+	}
+	msg := ast.NewHSMSDataMessage("", 1, 1, 0, "H->E", ast.NewListNode(items...), 7, []byte{1, 2, 3, 4}).ToBytes()
+	decodeMu.Lock()
+	r := decode(msg, exact)
+	decodeMu.Unlock()
+	ev := J{"ev": "bigseq", "kids": kj, "ok": r.ok, "same": false, "msglen": len(msg)}
+	hs := []interface{}{}
+	for _, h := range r.hdrs {
+		hj := h.(J)
+		pos, nl := hj["pos"].(int), hj["nl"].(int)
+		raw := []int{}
+		if nl >= 0 && pos-1-nl >= 0 && pos <= len(msg) {
+			raw = bytesJ(msg[pos-1-nl : pos])
+		}
+		hs = append(hs, J{"pos": pos, "code": hj["code"], "nl": nl, "len": hj["len"], "raw": raw})
+	}
+	ev["hdrs"] = hs
+	if r.ok {
+		ev["same"] = string(r.m.ToBytes()) == string(msg)
+	}
+	return ev
 }
 
 func bigEvent(f string, n int, tier string) J {
